@@ -269,14 +269,14 @@ where
         // incorrect.
         assert!(self.refresh == RefreshLut::Full);
 
-        self.set_ram_area(spi, x, y, x + width, y + height)?;
+        self.set_ram_area(spi, x, y, x + width - 1, y + height - 1)?;
         self.set_ram_address_counters(spi, delay, x, y)?;
 
         self.cmd_with_data(spi, Command::WriteRam, buffer)?;
 
         if self.refresh == RefreshLut::Full {
             // Always keep the base buffer equals to current if not doing partial refresh.
-            self.set_ram_area(spi, x, y, x + width, y + height)?;
+            self.set_ram_area(spi, x, y, x + width - 1, y + height - 1)?;
             self.set_ram_address_counters(spi, delay, x, y)?;
 
             self.cmd_with_data(spi, Command::WriteRamRed, buffer)?;
